@@ -25,6 +25,23 @@ field types: "int" | "str" | {"nested":cid} | extended: "datetime" | "any" | "bo
         "ulit_int" | "opt_int" | "list_int" | "dict_int" | "catchall" | {"fwd":cid,"qn":qn} (= list['<name>'])"
         (badcond = Annotated[bool, IS_NOT(True)]: a bare Condition, the dump setup of the class raises)
 
+Typed operations (second state machine, coq/model/HistValueModel.v; values carry their EXACT Python type):
+  {"op":"xdefine","cid":3,"qn":3,"mod":"a","wiz":bool,"engine":"d"|"v1","case":v1_key_case|null,"ltr":key_transform_with_load|null,
+   "fields":[{"n":name,"t":xtype,"d":xvalue (optional default),"al":[load alias,...] (optional)},...]}
+  {"op":"xload","cid":3,"attr":bool,"doc":[[key,xvalue],...]}       (a list of pairs: key ORDER is part of the document)
+  {"op":"xdump","attr":bool,"cid":3,"f":[[name,xvalue],...]}
+  {"op":"xoracle","fn":"iso"|"fromts"|"strp","kind":"datetime"|"date"|"time","v":xvalue,"fmt":str}   (stdlib only; oracle tables of the model)
+xtype  = "int"|"float"|"bool"|"str"|"Decimal"|"datetime"|"date"|"time"|"timedelta"|"any"
+         | {"pat":objid,"fmt":"%d.%m.%Y","base":"date"|"datetime"|"time"}   = Annotated[base, P] where P is ONE Pattern object
+           per (objid, engine) in the job: equal ids denote the SAME annotation object, at whatever position / class it is used
+xvalue = {"t":"none"} | {"t":"bool","v":true} | {"t":"int","v":1} | {"t":"float","v":"0x1p+0"} | {"t":"Decimal","v":"1"} |
+         {"t":"Fraction","v":"1/1"} | {"t":"str","v":".."} | {"t":"datetime"|"date"|"time","v":iso} | {"t":"timedelta","v":seconds} |
+         {"t":"list","v":[xvalue..]}
+typed outcome text: v c<cid>(<hexname>=<tv>,..) with tv = N | B0/B1 | I<int> | F<float hex> | M<Decimal str> | Q<fraction> | S<hex> |
+         T<datetime iso> | A<date iso> | H<time iso> | W<days>_<seconds>_<micros> | L[..] | D{..} | ?<TypeName> (exact types only:
+         a subclass instance prints as ?Name);  j<same syntax> for dumps;  errors as below, ParseError of a typed op carries
+         the target type the error names:  eP<qn>:<hexfield>@<TypeName>
+
 Outcome text (same syntax as coq/model/StateShow.v; classes named by cid in values, by
 qualname number in errors):
   d | v<inst> | j<json> | eP<qn>:<hexfield> | eD<qn>:<hexfield> | eM<qn>:<hex>+<hex> | eU<qn>:<hexkey> | eV | eX | eA | e?<TypeName>
@@ -247,10 +264,189 @@ class Job:
             return 'eA'
         return 'e?' + t.__name__
 
+
+    # ---- typed operations (values carry their exact Python type; shared annotation objects) ----
+    def xvalue(self, v):
+        import datetime, decimal, fractions
+        t = v['t']
+        if t == 'none':
+            return None
+        if t in ('bool', 'int', 'str'):
+            return v['v']
+        if t == 'float':
+            return float.fromhex(v['v']) if isinstance(v['v'], str) and 'x' in v['v'] else float(v['v'])
+        if t == 'Decimal':
+            return decimal.Decimal(v['v'])
+        if t == 'Fraction':
+            return fractions.Fraction(v['v'])
+        if t == 'datetime':
+            return datetime.datetime.fromisoformat(v['v'])
+        if t == 'date':
+            return datetime.date.fromisoformat(v['v'])
+        if t == 'time':
+            return datetime.time.fromisoformat(v['v'])
+        if t == 'timedelta':
+            return datetime.timedelta(seconds=v['v'])
+        if t == 'list':
+            return [self.xvalue(x) for x in v['v']]
+        raise ValueError('xvalue %r' % (v,))
+
+    def xshow(self, v):
+        import datetime, decimal, fractions
+        t = type(v)
+        if v is None:
+            return 'N'
+        if t is bool:
+            return 'B%d' % v
+        if t is int:
+            return 'I%d' % v
+        if t is float:
+            return 'F' + (v.hex() if v == v and v not in (float('inf'), float('-inf')) else repr(v))
+        if t is decimal.Decimal:
+            return 'M' + str(v)
+        if t is fractions.Fraction:
+            return 'Q' + str(v)
+        if t is str:
+            return 'S' + hx(v)
+        if t is datetime.datetime:
+            return 'T' + v.isoformat()
+        if t is datetime.date:
+            return 'A' + v.isoformat()
+        if t is datetime.time:
+            return 'H' + v.isoformat()
+        if t is datetime.timedelta:
+            return 'W%d_%d_%d' % (v.days, v.seconds, v.microseconds)
+        if t is list:
+            return 'L[%s]' % ','.join(self.xshow(x) for x in v)
+        if t is dict:
+            return 'D{%s}' % ','.join('%s:%s' % (hx(str(k)), self.xshow(x)) for k, x in v.items())
+        if dataclasses.is_dataclass(v) and t in self.cid_of:
+            return 'c%d(%s)' % (self.cid_of[t], ','.join(
+                '%s=%s' % (hx(f.name), self.xshow(getattr(v, f.name, '<unset>'))) for f in dataclasses.fields(v)))
+        return '?' + t.__name__
+
+    def xann(self, ns, i, f, engine):
+        """annotation source text of a typed field; shared Pattern objects are created once per (id, engine)"""
+        t = f['t']
+        if isinstance(t, dict):
+            key = ('pat', t['pat'], engine)
+            if key not in self.shared:
+                if engine == 'v1':
+                    from dataclass_wizard.v1 import Pattern
+                else:
+                    from dataclass_wizard import Pattern
+                self.shared[key] = Pattern(t['fmt'])
+            ns['_P%d' % i] = self.shared[key]
+            return 'Annotated[%s, _P%d]' % (t['base'], i)
+        return {'any': 'Any'}.get(t, t)
+
+    def xdefine(self, o):
+        m = self.module(o.get('mod') or 'm')
+        name = self.cname(o['qn'])
+        self.qn_of_name[name] = o['qn']
+        ns = m.__dict__
+        exec('from datetime import date, time, timedelta\nfrom decimal import Decimal\n'
+             'from dataclass_wizard import json_field\nfrom dataclass_wizard.v1 import Alias as _V1Alias\n', ns)
+        engine = o.get('engine') or 'd'
+        lines = ['@dataclass', 'class %s%s:' % (name, '(JSONWizard)' if o.get('wiz') else '')]
+        for i, f in enumerate(o['fields']):
+            ann = self.xann(ns, i, f, engine)
+            rhs = ''
+            has_d = 'd' in f and f['d'] is not None
+            if has_d:
+                ns['_D%d' % i] = self.xvalue(f['d'])
+            if f.get('al'):
+                ns['_A%d' % i] = tuple(f['al'])
+                if engine == 'v1':
+                    rhs = ' = _V1Alias(load=_A%d%s)' % (i, ', default=_D%d' % i if has_d else '')
+                else:
+                    rhs = ' = json_field(_A%d, all=True%s)' % (i, ', default=_D%d' % i if has_d else '')
+            elif has_d:
+                rhs = ' = _D%d' % i
+            lines.append('    %s: %s%s' % (f['n'], ann, rhs))
+        if not o['fields']:
+            lines.append('    pass')
+        exec('\n'.join(lines) + '\n', ns)
+        cls = ns[name]
+        self.classes[o['cid']] = cls
+        self.cid_of[cls] = o['cid']
+        kw = {}
+        if engine == 'v1':
+            kw['v1'] = True
+            if o.get('case') is not None:
+                kw['v1_key_case'] = o['case']
+        elif o.get('ltr') is not None:
+            kw['key_transform_with_load'] = o['ltr']
+        if o.get('unknown') is not None:
+            if engine == 'v1':
+                kw['v1_on_unknown_key'] = o['unknown']
+            else:
+                kw['raise_on_unknown_json_key'] = o['unknown'] == 'RAISE'
+        if kw:
+            from dataclass_wizard import LoadMeta
+            LoadMeta(**kw).bind_to(cls)
+
+    def xinst(self, o):
+        cls = self.classes[o['cid']]
+        obj = object.__new__(cls)
+        for k, x in o['f']:
+            object.__setattr__(obj, k, self.xvalue(x))
+        return obj
+
+    def xoracle(self, o):
+        """STDLIB answers the Coq model takes as oracle tables (the calls type_conv.as_datetime / as_date / as_time and the
+        generated pattern_to_dt make; nothing of dataclass_wizard runs here):  o<typed text> | none | e?<Exception>"""
+        import datetime
+        fn, kind = o['fn'], o['kind']
+        cls = {'datetime': datetime.datetime, 'date': datetime.date, 'time': datetime.time}[kind]
+        v = self.xvalue(o['v'])
+        try:
+            if fn == 'iso':
+                try:
+                    return 'o' + self.xshow(cls.fromisoformat(v if kind == 'date' else v.replace('Z', '+00:00', 1)))
+                except Exception:
+                    return 'none'
+            if fn == 'fromts':
+                return 'o' + self.xshow(cls.fromtimestamp(v, tz=datetime.timezone.utc) if kind == 'datetime' else cls.fromtimestamp(v))
+            if fn == 'strp':
+                try:
+                    dt = datetime.datetime.strptime(v, o['fmt'])
+                except ValueError:
+                    return 'none'
+                return 'o' + self.xshow(dt if kind == 'datetime' else dt.date() if kind == 'date' else dt.time())
+        except BaseException as e:  # noqa
+            return 'e?' + type(e).__name__
+        return 'e?op'
+
+    def show_xerr(self, e):
+        from dataclass_wizard.errors import ParseError
+        s = self.show_err(e)
+        if type(e) is ParseError:
+            t = getattr(e, 'ann_type', None)
+            s += '@' + (getattr(t, '__name__', None) or type(t).__name__)
+        return s
+
     def run_op(self, o):
         from dataclass_wizard import fromdict, asdict
         try:
             k = o['op']
+            if k == 'xoracle':
+                return self.xoracle(o)
+            if k in ('xdefine', 'xload', 'xdump'):
+                try:
+                    if k == 'xdefine':
+                        self.xdefine(o)
+                        return 'd'
+                    if k == 'xload':
+                        cls = self.classes[o['cid']]
+                        doc = {kk: self.xvalue(x) for kk, x in o['doc']}
+                        r = cls.from_dict(doc) if o.get('attr') else fromdict(cls, doc)
+                        return 'v' + self.xshow(r)
+                    inst = self.xinst(o)
+                    r = inst.to_dict() if o.get('attr') else asdict(inst)
+                    return 'j' + self.xshow(r)
+                except BaseException as e:  # noqa
+                    return self.show_xerr(e)
             if k == 'define':
                 self.define(o)
                 return 'd'
@@ -270,12 +466,42 @@ class Job:
             return self.show_err(e)
 
 
+def run_job(job):
+    j = Job(job['salt'])
+    return [j.run_op(o) for o in job['ops']]
+
+
+def run_forked(job):
+    """the job in a forked child of THIS interpreter (library imported, nothing defined, nothing loaded): the
+    child's tables, annotation objects and any process-wide memo are pristine, whatever other jobs did"""
+    import json
+    r, w = os.pipe()
+    pid = os.fork()
+    if pid == 0:
+        code = 1
+        try:
+            os.close(r)
+            data = json.dumps(run_job(job)).encode()
+            with os.fdopen(w, 'wb') as f:
+                f.write(data)
+            code = 0
+        finally:
+            os._exit(code)
+    os.close(w)
+    with os.fdopen(r, 'rb') as f:
+        data = f.read()
+    _, status = os.waitpid(pid, 0)
+    if status != 0 or not data:
+        raise RuntimeError('forked job %s failed (status %s)' % (job['salt'], status))
+    return json.loads(data)
+
+
 def handler(p):
-    out = []
-    for job in p['jobs']:
-        j = Job(job['salt'])
-        out.append([j.run_op(o) for o in job['ops']])
-    return {'results': out}
+    """optional key "fork": true runs every job in a forked child of its own (new; default: all jobs in this interpreter)"""
+    if p.get('fork'):
+        import dataclass_wizard, dataclass_wizard.v1, decimal, fractions, datetime  # noqa: imported BEFORE forking, never used here
+        return {'results': [run_forked(job) for job in p['jobs']]}
+    return {'results': [run_job(job) for job in p['jobs']]}
 
 
 if __name__ == '__main__':
